@@ -76,7 +76,7 @@ WITNESSES_PER_KEY = 4
 def gen_cases(run):
     rng = run.rng
     n_sim = run.n(170, 16 * 1500)
-    n_loader = run.n(8, 16 * 40)
+    n_loader = run.n(30, 16 * 150)
     every = max(1, n_sim // max(1, n_loader))
     made_loader = 0
     for i in range(n_sim):
